@@ -72,7 +72,7 @@ func (C14) Budget(tier string) core.Budget {
 	if tier == "thorough" {
 		return core.Budget{Runs: 1600, MaxWall: 30 * 60e9}
 	}
-	return core.Budget{Runs: 240, MaxWall: 70e9}
+	return core.Budget{Runs: 200, MaxWall: 45e9}
 }
 
 func (C14) New() any { return &C14Scenario{} }
